@@ -83,17 +83,52 @@ def sha_kernels(prog, file, ns, ways, batch):
 KERNELS += sha_kernels(P_SSE, F_SSE, "Sha256Sse41", 4, 256)
 KERNELS += sha_kernels(P_AVX, F_AVX, "Sha256Avx", 8, 512)
 
+# ------------------------------------------------------------------------------------------------ (c) BLAKE2 AVX / AVX2
+F_BAVX, F_BAVX2, F_BCOMMON = "src/hashing/blake2/avx.rs", "src/hashing/blake2/avx2.rs", "src/hashing/blake2/common.rs"
+B2_ENUMS = {"LastBlock": ("LastBlock", {"Yes": "LastBlock.Yes", "No": "LastBlock.No"})}
+P_BAVX = Program(enums=B2_ENUMS)
+P_BAVX2 = Program(enums=B2_ENUMS)
+
+
+def BA(fn, **kw):
+    return SK(prog=P_BAVX, file=F_BAVX, ns="Blake2Avx", fn=fn, **kw)
+
+
+def BA2(fn, **kw):
+    return SK(prog=P_BAVX2, file=F_BAVX2, ns="Blake2Avx2", fn=fn, **kw)
+
+
+KERNELS += [
+    SK(prog=P_BAVX, file=F_BCOMMON, ns="Blake2Avx", kind="const", fn="IV", module="b", lean_name="b_IV", rust_paths=["b::IV"]),
+    SK(prog=P_BAVX, file=F_BCOMMON, ns="Blake2Avx", kind="const", fn="IV", module="s", lean_name="s_IV", rust_paths=["s::IV"]),
+    BA("rotate16_epi64"), BA("rotate24_epi64"), BA("rotate32_epi64"), BA("rotate63_epi64"),
+    BA("rotate7_epi32"), BA("rotate8_epi32"), BA("rotate12_epi32"), BA("rotate16_epi32"),
+    BA("compress_b_avx", ptr_kinds={"h": "u64s", "block": "bytes", "iv": "u64s", "t": "u64s"},
+       doc="`compress_b_avx`: BLAKE2b on eight `__m128i` half rows"),
+    BA("compress_s_avx", ptr_kinds={"h": "u32s", "block": "bytes", "iv": "u32s"},
+       doc="`compress_s_avx`: BLAKE2s on four `__m128i` rows"),
+    BA("compress_b", doc="`avx::compress_b`"),
+    BA("compress_s", doc="`avx::compress_s`"),
+    SK(prog=P_BAVX2, file=F_BCOMMON, ns="Blake2Avx2", kind="const", fn="IV", module="b", lean_name="b_IV", rust_paths=["b::IV"]),
+    BA2("rot32"), BA2("rot16"), BA2("rot24"), BA2("rot63"),
+    BA2("compress_b_avx2", ptr_kinds={"h": "u64s", "m": "bytes", "iv": "u64s"},
+        doc="`compress_b_avx2`: BLAKE2b on four `__m256i` rows"),
+    BA2("compress_b", doc="`avx2::compress_b`"),
+]
+
 HEADER = """import CxVerif.Util.Bytes
 import CxVerif.Util.GlueRt
 import CxVerif.Util.Intrinsics
 import CxVerif.Impl.Sha2
+import CxVerif.Impl.Blake2
 /-!
   Extracted.GlueSimd — GENERATED by tools/ktx_glue_simd.py (kernel specs tools/kernels/glue_simd.py): the vectorised code paths of
-  src/chacha/sse2.rs, src/hashing/sha2/impl256/{sse41,avx}.rs, translated statement by statement from the CURRENT Rust source into the intrinsic
+  src/chacha/sse2.rs, src/hashing/sha2/impl256/{sse41,avx}.rs, src/hashing/blake2/{avx,avx2}.rs, translated statement by statement from the CURRENT Rust source into the intrinsic
   definitions of Util/Intrinsics.lean.  Tie theorems: CxVerif/Props/C16/GlueTieSimd*.lean.
 -/
 namespace Cx.Extracted.GlueSimd
 open Cx Cx.Intrinsics Cx.Impl.Sha2
+open Cx.Impl.Blake2 (LastBlock)
 open Cx.Spec.Sha2 (W8)
 set_option autoImplicit false
 set_option linter.unusedVariables false
